@@ -353,6 +353,17 @@ func IndentByParentheses(s string) string {
 	for i := 0; i < len(A); i++ {
 		c := A[i]
 		switch {
+		case c == '"':
+			// copy string literals verbatim, spaces, parentheses
+			// and semicolons in them are not layout
+			appendRune(c, prev, indent)
+			for i++; i < len(A); i++ {
+				sb.WriteRune(A[i])
+				if A[i] == '"' {
+					break
+				}
+			}
+			prev = normal
 		case left[c]:
 			appendLeft(c, prev, indent)
 			indent++
